@@ -1,23 +1,24 @@
 // Controlled threads: real OS threads that only run while they hold the baton.
 
-use super::core::{
-    controlled_body, ctx, lock_state, register_thread, sched, Ctx, Op, Tid, STACK_SIZE,
-};
+use super::core::{controlled_body_with, ctx, lock_state, register_thread, sched, spawn_os, Ctx, Op, Tid};
+use std::sync::{Arc, Mutex as StdMutex};
 use std::time::Duration;
 
 pub struct JoinHandle<T> {
     tid: Tid,
-    inner: std::thread::JoinHandle<std::thread::Result<T>>,
+    slot: Arc<StdMutex<Option<std::thread::Result<T>>>>,
 }
 
 impl<T> JoinHandle<T> {
     pub fn join(self) -> std::thread::Result<T> {
         let tid = self.tid;
         sched(Op::Join(tid), |_, _| ());
-        match self.inner.join() {
-            Ok(r) => r,
-            Err(e) => Err(e),
-        }
+        // the result is stored before the thread is marked finished
+        self.slot
+            .lock()
+            .unwrap_or_else(|e| e.into_inner())
+            .take()
+            .expect("vrt: joined thread left no result")
     }
     pub fn tid(&self) -> Tid {
         self.tid
@@ -43,11 +44,14 @@ where
         exec: c.exec.clone(),
         tid,
     };
-    let inner = std::thread::Builder::new()
-        .stack_size(STACK_SIZE)
-        .spawn(move || controlled_body(child, f))
-        .expect("vrt: cannot spawn thread");
-    JoinHandle { tid, inner }
+    let slot = Arc::new(StdMutex::new(None));
+    let slot2 = slot.clone();
+    spawn_os(Box::new(move || {
+        let _ = controlled_body_with(child, f, move |r| {
+            *slot2.lock().unwrap_or_else(|e| e.into_inner()) = Some(r);
+        });
+    }));
+    JoinHandle { tid, slot }
 }
 
 pub fn spawn<F, T>(f: F) -> JoinHandle<T>
